@@ -94,6 +94,11 @@ type dev struct {
 	apply func(img []byte) []byte
 }
 
+// afterIntact: for a deviation whose description ends in this marker the intact base image is
+// analysed first, in the same process and right before the deviated one (whatever the analysis
+// remembers from a valid image is then in place).
+const afterIntact = " [after the intact image]"
+
 func deviations(tier string) []dev {
 	bs := bases()
 	var out []dev
@@ -148,6 +153,17 @@ func deviations(tier string) []dev {
 				}
 			}
 		}
+		// Front cuts: the tables are found from the END of the image, so dropping leading bytes keeps
+		// them intact while every offset and size in them now points outside. Each cut alone and right
+		// after the intact image.
+		for n := 1; n < len(b.img); n++ {
+			if tier != "thorough" && n%0x100 != 0 && n > 64 {
+				continue
+			}
+			n := n
+			out = append(out, dev{bi, fmt.Sprintf("%s front-cut@%d", b.name, n), func(img []byte) []byte { return img[n:] }})
+			out = append(out, dev{bi, fmt.Sprintf("%s front-cut@%d", b.name, n) + afterIntact, func(img []byte) []byte { return img[n:] }})
+		}
 		// every truncation (quick: page-level and the last 128 bytes; thorough: every length)
 		for n := 0; n <= len(b.img); n++ {
 			if tier != "thorough" && n%0x100 != 0 && n < len(b.img)-160 {
@@ -155,6 +171,9 @@ func deviations(tier string) []dev {
 			}
 			n := n
 			out = append(out, dev{bi, fmt.Sprintf("%s trunc@%d", b.name, n), func(img []byte) []byte { return img[:n] }})
+			if n%0x100 == 0 {
+				out = append(out, dev{bi, fmt.Sprintf("%s trunc@%d", b.name, n) + afterIntact, func(img []byte) []byte { return img[:n] }})
+			}
 		}
 		if tier == "thorough" {
 			// pairs inside the TDVF metadata: every pair of 4-byte-aligned field offsets x 64-bit/32-bit extremes
@@ -345,6 +364,9 @@ func build(tier string) (*mc.Guarded, func(i int) (string, string)) {
 					src = bs[d.base].img
 				}
 				img := d.apply(src)
+				if strings.HasSuffix(d.desc, afterIntact) {
+					e.f(src)
+				}
 				return e.f(img), len(img)
 			}}
 		}}
